@@ -113,6 +113,27 @@ TABLE = {
             'Equality with an independent XEP-0115 implementation for all inputs (values containing "<", duplicate keys, several forms) and staleness after addExtension() on a live session without a new presence are not decided.', 'DESIGN.md §2 C20'),
 }
 
+# sentences appended to the level text: rules added after the seeded campaign of round 3 (DESIGN.md §8.1)
+EXTRA = {
+    'C01': 'Reader-shape rules with positive controls: no read guarded by the value of another attribute, multi-valued members only grow while parsing, the text-to-integer conversion is as wide as the member it fills.',
+    'C02': 'A DOM loop advances only through a value that moves (loop heads of short-circuit conditions included); a table indexed by an enum value covers every enumerator the index can hold.',
+    'C03': 'processData never discards accumulated text after a failed parse or by size; the backward scan of a hand-written UTF-8 boundary can inspect the last three bytes (trip bound), also when it lives in a helper.',
+    'C04': 'No negotiation manager of an earlier connection is listening when a new stream starts (shared with C10.R4).',
+    'C05': 'The list handed to the chooser is the offered list, only ever extended.',
+    'C06': 'No credential-derived text is assembled with chained QString::arg() (positive control).',
+    'C08': 'Consumers ahead of the extension pipeline never claim a get/set; a slot that answers a stored request is one-shot.',
+    'C09': 'The loops that re-register / resend unacknowledged stanzas have no early exit.',
+    'C10': 'A deliberate disconnect tells the stream manager before the socket closes (effect order through helpers); every timer the connection code starts is stopped on the connection-lost path.',
+    'C11': 'The own address the sender is compared with is computed from the current user/domain, or its cache is invalidated by every writer of them.',
+    'C12': 'Every pushed item that is not a removal is stored on every path of the loop body.',
+    'C15': 'The keyed-decode verdict is followed through a decode helper; every datagram is decoded into a fresh message object.',
+    'C16': 'On the asynchronous edge the identity is the user name stored with the request, answers that arrive after their exchange ended are ignored, and a dropped SASL 2 request ends the exchange.',
+    'C17': 'With an encryption extension installed no message given to sendSensitive takes the plain path.',
+    'C18': 'The decision code is evaluated per sender-key trust level; a held-back decision is identified by key id, owner and sender key in the storage.',
+    'C19': 'The (sender, session id) lookup returns a job only where both were compared; after an error reply the first terminate() (helpers included) is an error.',
+    'C20': 'The disco#info serialiser writes every identity and feature the hash covers; what is sent is the stored presence whose hash was recomputed.',
+}
+
 NOT_APPLICABLE_REASON = 'check not built yet in this session (see DESIGN.md); listed here until qxverif/rules/<id>.py exists'
 
 
@@ -125,6 +146,8 @@ def main():
         have = os.path.exists(os.path.join(HERE, 'qxverif', 'rules', pid + '.py'))
         if have and pid in TABLE:
             tech, text, note, ref = TABLE[pid]
+            if pid in EXTRA:
+                text = text + ' Also: ' + EXTRA[pid]
             checks.append({
                 'property_id': pid,
                 'quick_cmd': './check %s --tier quick' % pid,
